@@ -51,8 +51,28 @@ def correspond(model_ok, res):
         idx.append(i)
         if k == "ok" and len(s) > 4:
             seen.add(s)
-    # layout independence on the implementation
+    # layout independence on the implementation.  Two renderings of one lexeme list are layout variants only
+    # if they really tokenise alike (adjacent lexemes may fuse: "T12" ":" "2024…" written without blanks is ONE
+    # time-like word); pairs whose token (type, lexeme) sequences differ are not judged.
+    def keys(s):
+        import luqum.parser as P
+        lx = P.lexer.clone()
+        lx.input(s)
+        out = []
+        try:
+            while True:
+                t = lx.token()
+                if t is None:
+                    return out
+                out.append((t.type, s[t.lexpos:t.lexpos + (t.value.size if hasattr(t.value, "size") and t.value.size is not None else 0)]))
+        except Exception:
+            return None
+    judged = 0
     for a, b in pairs:
+        ka_, kb_ = keys(a), keys(b)
+        if ka_ is None or ka_ != kb_:
+            continue
+        judged += 1
         ka, va = PG.impl_parse(a, parser.parse)
         kb, vb = PG.impl_parse(b, parser.parse)
         if ka != kb or (ka == "ok" and not (va == vb)):
@@ -63,7 +83,7 @@ def correspond(model_ok, res):
                 "queries with minimal layout; pairs of layouts of one token sequence; non-trivial = distinct "
                 "accepted input longer than 4 chars")
     res.samples = strings[-5:] + [list(pairs[0])]
-    res.distribution = {"outcomes": kinds, "layout_pairs": len(pairs)}
+    res.distribution = {"outcomes": kinds, "layout_pairs": len(pairs), "layout_pairs_judged": judged}
     if not model_ok:
         res.model_error = "model did not build"
         return
@@ -106,6 +126,9 @@ SPEC = {
     "model_targets": ["model/Parser.vo", "model/TreeEq.vo", "model/Erase.vo", "model/Grammar.vo"],
     "module": "C03",
     "theorems": ["C03_layout_independent", "C03_layout_independent_trees", "C03_reserved_words", "C03_inclusiveness", "C03_grammar_refuted"],
+    "more": [{"module": "C03c", "target": "props/C03c.vo",
+              "theorems": ["C03c_precedence", "C03c_precedence_parse", "C03c_grammar_trees",
+                           "C03c_grammar_trees_parse", "C03c_grammar_trees_value"]}],
     "correspond": correspond,
     "statement": "(a) for ANY LR tables, inputs with the same (type, lexeme) token sequence have equal trees up to "
                  "layout (or errors of the same class); (b) reserved words are operators only as whole lexemes, "
@@ -114,9 +137,12 @@ SPEC = {
                  "token sequences",
     "level_text": "Coq proof of layout independence for any tables (lock-step simulation of two LR runs) and of the "
                   "lexical clauses on the lexer model; clause (c) — the tree is the one the documented grammar "
-                  "dictates — is PARTIAL: stated against an executable reference parser, refuted by the F4 witness, and "
-                  "validated (not proved) by comparing the implementation with the reference parser on every token-type "
-                  "sequence up to length 3 (4 in the thorough tier) and on generated queries, on every run.",
+                  "dictates — is PARTIAL: proved (C03c.v, symbolic execution of the driver on the generated tables by "
+                  "structural induction, table entries as computed facts) for all yields of well-formed syntax trees of "
+                  "the documented grammar without a signed operand in juxtaposition; the full statement is refuted by the "
+                  "F4 witness; what the theorem leaves out (bracketed ranges, juxtaposed +/-/TO operands, rejection of "
+                  "non-queries) is validated by comparing the implementation with the reference parser on every "
+                  "token-type sequence up to length 3 (4 in the thorough tier) and on generated queries, on every run.",
     "trusted_base": [
         "Coq 8.16.1 kernel (vm_compute for witnesses and correspondence; no native_compute); no axioms",
         "gen/gen_parser.py: live PLY tables, token rules, reserved words",
